@@ -1,10 +1,66 @@
-(** C04 - FIFO queues: property theorems (statements only; proofs live in Proof/). *)
+(** C04 - FIFO queues: property theorems (statements only; proofs live in Proof/MsqInv.v).
+    [MsqDefs] is the step-level model of michael_scott_queue (over a reclaimer that never reuses a
+    referenced node = what C01 guarantees), tied to the code by trace correspondence on every run.
+    [chain st]: the nodes reachable from head; [g_in]/[g_out]: values in linearization order of the
+    link CAS / head CAS. *)
 From Coq Require Import NArith List.
-From XV Require Import Base.Word Conc.Lts Model.MsqDefs.
+From XV Require Import Base.Word Conc.Lts Conc.Ev Model.MsqDefs Proof.MsqInv.
 Import ListNotations.
 Local Open Scope N_scope.
 
-(** sanity obligation on the model (extended by Proof/MsqInv.v): an empty queue is a lone dummy node *)
-Theorem C04_msq_init : head init = tail init /\ nnext init (head init) = 0 /\ g_in init = [] /\ g_out init = [].
-Proof. repeat split; reflexivity. Qed.
-Print Assumptions C04_msq_init.
+(** structural invariant: head-to-null chain, no cycles, tail lags by at most one node *)
+Theorem C04_msq_chain : forall st, reach init step st ->
+  hd 0 (chain st) = head st /\
+  (forall i, (S i < length (chain st))%nat -> nth (S i) (chain st) 0 = nnext st (nth i (chain st) 0)) /\
+  nnext st (last (chain st) 0) = 0 /\
+  NoDup (chain st) /\
+  (forall x, In x (chain st) -> x <> 0 /\ x < nalloc st) /\
+  (exists l0, chain st = l0 ++ [tail st] \/ exists x, chain st = l0 ++ [tail st; x]).
+Proof. exact msq_chain. Qed.
+Print Assumptions C04_msq_chain.
+
+(** MAIN RESULT (any number of threads, any program, any schedule): the values dequeued so far followed
+    by the values currently in the queue are exactly the values enqueued so far, in linearization order:
+    nothing lost, duplicated or invented, FIFO order *)
+Theorem C04_msq_fifo : forall st, reach init step st ->
+  g_in st = g_out st ++ map (nval st) (tl (chain st)).
+Proof. exact msq_fifo. Qed.
+Print Assumptions C04_msq_fifo.
+
+(** a successful pop returns the oldest value not yet dequeued, and only the head CAS (D6) returns values *)
+Theorem C04_msq_pop_value : forall st a st' es t x, reach init step st ->
+  step st a = Some (st', es) -> In (ERet t [1; x]) es ->
+  x = nth (length (g_out st)) (g_in st) 0 /\
+  g_out st' = g_out st ++ [x] /\ g_in st' = g_in st /\
+  (exists h nx, a = Step t /\ th st t = D6 h nx /\ head st = h /\ head st' = nx /\ x = nval st nx /\
+                exists r, chain st = h :: nx :: r).
+Proof. exact msq_pop_value. Qed.
+Print Assumptions C04_msq_pop_value.
+
+(** 'empty' is reported only if the queue was empty at an instant inside the call: in the last loop
+    iteration of a pop that answers empty (D1 load, others run, D2 load, others run, D3 load) the head
+    did not change and at the D2 instant the queue consisted of the dummy node only *)
+Theorem C04_msq_empty_lp : forall t s0 sa s1 sb s2 s3 ea eb ec,
+  reach init step s0 -> th s0 t = D1 ->
+  step s0 (Step t) = Some (sa, ea) -> run_others t sa s1 ->
+  step s1 (Step t) = Some (sb, eb) -> run_others t sb s2 ->
+  step s2 (Step t) = Some (s3, ec) -> In (ERet t [0]) ec ->
+  th s1 t = D2 (head s0) /\ th s2 t = D3 (head s0) 0 /\ head s1 = head s0 /\
+  nnext s1 (head s1) = 0 /\ head s2 = head s0 /\ chain s1 = [head s1] /\ g_in s1 = g_out s1.
+Proof. exact msq_empty_lp_thread. Qed.
+Print Assumptions C04_msq_empty_lp.
+
+(** head never returns to an earlier node (no ABA on head under the reclaimer assumption) *)
+Theorem C04_msq_head_no_aba : forall s0 s1 s2, reach init step s0 ->
+  reach_from step s0 s1 -> reach_from step s1 s2 -> head s2 = head s0 ->
+  head s1 = head s0 /\ g_retired s1 = g_retired s0 /\ g_retired s2 = g_retired s0.
+Proof. exact msq_head_no_aba. Qed.
+Print Assumptions C04_msq_head_no_aba.
+
+(** non-vacuity: two threads, a pop about to CAS the head *)
+Example C04_nonvacuous :
+  let acts := [Start 1%nat (OPush 7); Step 1%nat; Step 1%nat; Step 1%nat; Step 1%nat; Step 1%nat;
+               Start 2%nat OPop; Step 2%nat; Step 2%nat; Step 2%nat; Step 2%nat; Step 2%nat] in
+  let st := fst (fst (run step init acts)) in
+  th st 2%nat = D6 1 2 /\ g_in st = [7] /\ g_out st = [].
+Proof. vm_compute. repeat split; reflexivity. Qed.
